@@ -101,11 +101,31 @@ type FailWriter struct {
 	Mode    string
 	Got     []byte
 	Fired   int
+	Calls   int
 	started int
 }
 
 func (w *FailWriter) Write(p []byte) (int, error) {
+	w.Calls++
 	switch w.Mode {
+	case "once":
+		// transient failure: exactly the At-th call (1-based) is rejected, every
+		// other call is accepted in full
+		if w.Calls == w.At {
+			w.Fired++
+			return 0, ErrInjected
+		}
+		w.Got = append(w.Got, p...)
+		return len(p), nil
+	case "once-short":
+		// transient short write: the At-th call accepts half of its bytes and fails
+		if w.Calls == w.At {
+			w.Fired++
+			w.Got = append(w.Got, p[:len(p)/2]...)
+			return len(p) / 2, ErrInjected
+		}
+		w.Got = append(w.Got, p...)
+		return len(p), nil
 	case "short":
 		if len(w.Got) >= w.At {
 			w.Fired++
